@@ -87,7 +87,8 @@ Proof. intros -> -> -> H. rewrite !Nat.mul_add_distr_l. lia. Qed.
 
 Ltac try_delta X X' k :=
   first [ assert (X = X' + 0) by lia; k 0 | assert (X = X' + 1) by lia; k 1 | assert (X = X' + 2) by lia; k 2
-        | assert (X = X' + 3) by lia; k 3 | assert (X = X' + 4) by lia; k 4 ].
+        | assert (X = X' + 3) by lia; k 3 | assert (X = X' + 4) by lia; k 4
+        | assert (X = X' + 5) by lia; k 5 | assert (X = X' + 6) by lia; k 6 ].
 Ltac rank_case :=
   match goal with
   | |- ?KA * ?A' + ?WE * ?B' + 10 * ?C' + ?D' < ?KA * ?A + ?WE * ?B + 10 * ?C + ?D =>
@@ -175,6 +176,7 @@ Proof.
   all: simpl in *.
   all: rewrite ?app_length, ?map_app, ?sum_app in *; simpl in *.
   all: rw_state; simpl in *.
+  all: repeat match goal with H : tosend _ = _ |- _ => rewrite H in *; clear H end; simpl in *.
   all: pose proof (b2nat_le (tick s)) as Bt; pose proof (b2nat_le (rerun s)) as Br; pose proof (b2nat_le (mw0 s)) as Bm.
   all: try rank_case.
   all: unfold cmdw in *; simpl in *; try rank_case.
